@@ -56,9 +56,13 @@ def extra(uni, tier, seed):
     out.append(Extra("structural/getPayloadRef only for the output tensor",
                      "if tensor.get_is_output():\n        func = 'getPayloadRef'\n    else:\n        func = 'getPayload'" in src, ""))
     # footer: unpartition then the output flag is restored
-    src = ast.unparse(extract.module("teaal/trans/footer.py").func("Footer.make_footer"))
-    out.append(Extra("structural/footer unpartitions the output and keeps its output flag",
-                     "footer.add(partitioner.unpartition(output))" in src and "output.set_is_output(True)" in src, ""))
+    ffn = extract.module("teaal/trans/footer.py").func("Footer.make_footer")
+    top = [ast.unparse(x) for x in extract.strip_doc(ffn.body)]
+    out.append(Extra("structural/footer unpartitions the output unconditionally (a top-level statement, for the Einsum's own "
+                     "output) and keeps its output flag",
+                     "output = program.get_equation().get_output()" in top and "footer.add(partitioner.unpartition(output))" in top
+                     and "output.set_is_output(True)" in top
+                     and top.index("footer.add(partitioner.unpartition(output))") < top.index("output.set_is_output(True)"), str(top[:6])))
     return out
 
 
